@@ -13,6 +13,7 @@ statement (midpoint, edge rooting distances, outgroup first, rooting flag soft/h
 import gc
 import itertools
 import random
+import warnings
 
 import dendropy  # noqa: F401  (imported so that a broken install fails loudly)
 
@@ -30,6 +31,9 @@ RULE = ("every tree of U(n) (n up to the tier bound) drawn as generated, in chil
         "of the documented domain x every flag setting x every requested length pair / scripted generator answer; "
         "plus partly-None length assignments (every single / pair of edges without a length, one seed edge without "
         "a length under all child orders) x the five re-seeding / re-rooting operations x all targets and flags; "
+        "plus sequences on ONE tree object (every ordered pair over a reduced menu of the nine operations and seven "
+        "read-only queries, and selected triples, see bounds), judged after each step: the four invariants against "
+        "the original tree, placement / rooting-flag / query answers against the state just before the step; "
         "plus a stated finite set of large representatives (ladders, balanced trees, stars, a broom with 12..100 "
         "leaves, see bounds) x {unit, 1-2-3 cyclic} lengths x {rooted, unrooted} x every operation at a stated "
         "subset of targets and flag settings - exhaustive over that stated set only, same oracle; "
@@ -51,6 +55,12 @@ ASSUMPTIONS = [
     "reroot_at_edge, reroot_at_midpoint); for the others a changed flag is counted, not reported",
     "with update_bipartitions=True the unrooted split set is additionally read from Tree.bipartition_encoding "
     "(bit index = accession order recorded by the harness) and must equal the reference split set before the call",
+    "sequence layer: the invariants are preserved under composition, so each step of a sequence on one object is judged "
+    "with the single-call oracle (invariants against the original tree, placement against the state before the step); "
+    "mrca is called with is_bipartitions_updated=False because its default documents that it trusts the caller to have "
+    "kept the encoding current",
+    "after a call with update_bipartitions=True (and after encode_bipartitions) every edge's leafset bitmask must name "
+    "the leaves below it in the tree as it is now (docstrings: 'will be updated')",
     "operations taking an rng are driven by random.Random(k) for every k in bounds['rng_seeds'] and by a scripted "
     "generator that answers sample() with every node in turn and shuffle() with every permutation index in "
     "bounds['shuffle_indices']",
@@ -95,6 +105,25 @@ def bounds(tier):
                                         ["{1,2,3} and {0,1,2} n <= 4 (all flags)", "{1,2} and {0,1} n = 5 (update_bipartitions=False)",
                                          "{1,2} binary n = 6 (default flags)"]),
         },
+        "sequences_on_one_object": {
+            "trees": "every shape n <= %d as generated x {distinct integers rooted, distinct integers unrooted, "
+                     "ultrametric integers rooted%s, unit lengths with undefined rooting}" % ((4, "") if q else (5, " and unrooted")),
+            "menu per state (targets = pre-order indices of the CURRENT state)":
+                "reseed_at, reroot_at_node at every internal node; reroot_at_edge (L/4,3L/4) at every internal edge; "
+                "reroot_at_midpoint (update_bipartitions False / True); to_outgroup_position at every non-seed node; "
+                "reseed_at and to_outgroup_position once with update_bipartitions=True; randomly_reorient, "
+                "randomly_rotate (Random(0)); ladderize; reorder; queries distance_from_root, distance_from_tip (all "
+                "nodes), calc_node_ages (default check when the state is ultrametric), calc_node_root_distances, "
+                "encode_bipartitions, phylogenetic_distance_matrix, mrca(first, last leaf; is_bipartitions_updated=False)",
+            "pairs": "every ordered pair (includes the same operation twice)",
+            "triples": ("[x; y; z] with x a query or the midpoint search, y a re-rooting call (update_bipartitions=False), "
+                        "z = x again or mrca; trees with defined rooting") if q else
+                       ("n <= 3: every triple; n = 4: every [x; y; z] with x, z queries or midpoint and y any other "
+                        "operation; n = 5: [x; re-rooting y; x again or mrca]"),
+            "query answers compared": "path lengths, leaf root distances, split set / per-edge leafset bitmasks, common "
+                                      "ancestor, root age on ultrametric states; distance_from_tip and other node ages "
+                                      "are exercised only (C17's subject)",
+        },
         "partly_None_lengths": {
             "shapes": "n <= %d, as generated" % (4 if q else 5),
             "None subsets": "every single non-root edge; every pair of non-root edges"
@@ -103,7 +132,7 @@ def bounds(tier):
             "other lengths": "distinct positive integers (pre-order index)", "rootings": [True, False],
             "operations": "reseed_at, reroot_at_node, reroot_at_edge, reroot_at_midpoint, to_outgroup_position, every "
                           "target and flag setting; None read as 0 by the oracle; a TypeError of reroot_at_midpoint on "
-                          "a missing length and the position of the midpoint root are counted, not decided (the four "
+                          "a missing length and the position of the midpoint root are noted (maxima *_seen), not decided (the four "
                           "invariants and the rooting flag are)",
         },
         "rootings": "rooted, unrooted; undefined for the unit pattern" + (" (and none / distinct-integer patterns n <= 4)" if q else
@@ -299,6 +328,14 @@ def chunks(tier):
                 out.append({"n": n, "lo": lo, "hi": min(ns, lo + step), "part": j, "parts": parts, "tier": tier})
     for i in range(len(big_shapes())):
         out.append({"kind": "big", "index": i, "tier": tier})
+    for n in range(2, (4 if q else 5) + 1):
+        for si in range(len(U.shapes(n))):
+            if q or n >= 4:
+                out.append({"kind": "seq", "n": n, "si": si, "tier": tier})
+            if q or n == 5:
+                out.append({"kind": "seq", "n": n, "si": si, "tier": tier, "triples": "memo"})
+            elif n <= 4:
+                out.append({"kind": "seq", "n": n, "si": si, "tier": tier, "triples": "all" if n <= 3 else "query-op-query"})
     return out
 
 
@@ -706,7 +743,272 @@ def apply_op(tree, nodes, op, target, a):
         return tree.ladderize(ascending=a["asc"])
     if op == "reorder":
         return tree.reorder(ascending=a["asc"])
+    # read-only queries (they may leave memos on the tree or its nodes); used by the sequence layer
+    if op == "q_distance_from_root":
+        return [nd.distance_from_root() for nd in nodes]
+    if op == "q_distance_from_tip":
+        return [nd.distance_from_tip() for nd in nodes]
+    if op == "q_calc_node_ages":
+        if a.get("check"):
+            return tree.calc_node_ages()
+        return tree.calc_node_ages(ultrametricity_precision=False)
+    if op == "q_calc_node_root_distances":
+        return tree.calc_node_root_distances(return_leaf_distances_only=True)
+    if op == "q_encode_bipartitions":
+        return tree.encode_bipartitions()
+    if op == "q_phylogenetic_distance_matrix":
+        return tree.phylogenetic_distance_matrix()
+    if op == "q_mrca":
+        with warnings.catch_warnings():
+            warnings.simplefilter("ignore")
+            return tree.mrca(taxon_labels=list(a["labels"]), is_bipartitions_updated=False)
     raise ValueError(op)
+
+
+REROOTERS = ("reseed_at", "reroot_at_node", "reroot_at_edge", "to_outgroup_position", "randomly_reorient")
+QUERIES = ("q_distance_from_root", "q_distance_from_tip", "q_calc_node_ages", "q_calc_node_root_distances",
+           "q_encode_bipartitions", "q_phylogenetic_distance_matrix", "q_mrca")
+
+
+def query_value_problem(op, a, val, tree, nodes, after, inv, eq, labels):
+    """What a query answered, against the reference model of the tree as it is now (`after` = snapshot after the
+    call).  Only answers the statement's observers fix are compared: path lengths, root distances of leaves, the
+    split set, the common ancestor; distance_from_tip / node ages are exercised but their values are C17's subject."""
+    if op == "q_phylogenetic_distance_matrix":
+        ns = tree.taxon_namespace
+        tx = {t._label: t for t in ns._taxa}
+        for p, (d, _) in inv.paths.items():
+            x, y = sorted(p)
+            got = val.patristic_distance(tx[x], tx[y])
+            if not eq(got, d):
+                return "phylogenetic_distance_matrix gives %r for %s-%s, the tree has %r" % (got, x, y, d)
+    elif op in ("q_distance_from_root", "q_calc_node_root_distances"):
+        rd = ref.root_distances(after)
+        if op == "q_distance_from_root":
+            live = live_nodes(tree)
+            if len(live) != len(nodes):
+                return None
+            got = sorted((nd.taxon._label, float(v)) for nd, v in zip(nodes, val) if not nd._child_nodes and nd.taxon is not None)
+            want = sorted((k, float(v)) for k, v in rd.items() if k is not None)
+            if len(got) != len(want) or any(g[0] != w[0] or not eq(g[1], w[1]) for g, w in zip(got, want)):
+                return "distance_from_root of the leaves %s, the tree has %s" % (got, want)
+        else:
+            got = sorted(float(v) for v in val)
+            want = sorted(float(v) for k, v in rd.items())
+            if len(got) != len(want) or any(not eq(g, w) for g, w in zip(got, want)):
+                return "calc_node_root_distances returned %s, the tree has %s" % (got, want)
+    elif op == "q_encode_bipartitions":
+        es = encoding_splits(tree, labels)
+        if es != inv.splits:
+            return "encode_bipartitions describes splits %s, the tree has %s" % (
+                None if es is None else sorted(sorted(sorted(x) for x in sp) for sp in es),
+                sorted(sorted(sorted(x) for x in sp) for sp in inv.splits))
+    elif op == "q_mrca":
+        want = None
+        need = frozenset(a["labels"])
+        for cl, _ in ref.clade_list(after):
+            if need <= cl and (want is None or len(cl) < len(want)):
+                want = cl
+        got = None
+        if val is not None:
+            got = frozenset(nd.taxon._label for nd in live_nodes_from(val) if not nd._child_nodes and nd.taxon is not None)
+        if got != want:
+            return "mrca(%s) subtends %s, the smallest clade containing them is %s" % (
+                sorted(need), None if got is None else sorted(got), None if want is None else sorted(want))
+    elif op == "q_calc_node_ages" and a.get("check"):
+        rd = ref.root_distances(after)
+        h = max(rd.values()) if rd else 0
+        got = getattr(tree._seed_node, "age", None)
+        if got is None or not eq(float(got), float(h)):
+            return "calc_node_ages on an ultrametric tree gives the root age %r, its leaves are at %r" % (got, h)
+    return None
+
+
+def stale_edge_bitmask(tree, labels):
+    """After a call that was asked to keep the bipartitions current, every edge's leafset bitmask must name exactly
+    the leaves below it in the tree as it is now (bit i = labels[i]).  Returns a description of the first edge
+    for which that is not so."""
+    bit = {l: 1 << i for i, l in enumerate(labels)}
+    res = [None]
+
+    def rec(nd):
+        if not nd._child_nodes:
+            m = bit.get(nd.taxon._label, 0) if nd.taxon is not None else 0
+        else:
+            m = 0
+            for c in nd._child_nodes:
+                m |= rec(c)
+        bp = nd._edge._bipartition if nd._edge is not None else None
+        got = None if bp is None else bp._leafset_bitmask
+        if got != m and res[0] is None:
+            res[0] = "an edge above leaves %s carries leafset bitmask %s" % (
+                sorted(l for l in labels if bit[l] & m), None if got is None else bin(got))
+        return m
+    rec(tree._seed_node)
+    return res[0]
+
+
+def live_nodes_from(node):
+    out = []
+    stack = [node]
+    while stack:
+        nd = stack.pop()
+        out.append(nd)
+        stack.extend(reversed(nd._child_nodes))
+    return out
+
+
+def pat_ultrametric(shape):
+    """positive integer lengths making every leaf equidistant from the root (pre-order list, root None)"""
+    def height(x):
+        return 0 if isinstance(x, int) else 1 + max(height(c) for c in x)
+    out = []
+
+    def rec(x, parent_h):
+        h = height(x)
+        out.append(None if parent_h is None else parent_h - h)
+        if not isinstance(x, int):
+            for c in x:
+                rec(c, h)
+    rec(shape, None)
+    return out
+
+
+def seq_menu(bf, eq):
+    """Reduced operation menu on the tree state `bf` (targets = pre-order indices of that state)."""
+    k = bf.k
+    internal = [i for i in range(k) if bf.is_internal(i)]
+    for i in internal:
+        yield ("reseed_at", i, {"ub": False, "cb": True, "su": True})
+        yield ("reroot_at_node", i, {"ub": False, "su": True, "cb": True})
+        if i != 0 and bf.nodes[i][2] is not None:
+            L = bf.nodes[i][2]
+            yield ("reroot_at_edge", i, {"l1": L / 4.0, "l2": 3 * L / 4.0, "ub": False, "su": True})
+    yield ("reroot_at_midpoint", None, {"ub": False, "su": True, "cb": True})
+    yield ("reroot_at_midpoint", None, {"ub": True, "su": True, "cb": True})
+    for i in range(1, k):
+        yield ("to_outgroup_position", i, {"ub": False, "su": True})
+    if len(internal) > 1:
+        yield ("reseed_at", internal[-1], {"ub": True, "cb": True, "su": True})
+    yield ("to_outgroup_position", 1, {"ub": True, "su": True})
+    yield ("randomly_reorient", None, {"seed": 0, "ub": False})
+    yield ("randomly_rotate", None, {"seed": 0})
+    yield ("ladderize", None, {"asc": True})
+    yield ("reorder", None, {"asc": True})
+    rd = ref.root_distances(bf.sn)
+    ultra = len(set(rd.values())) == 1 if all(isinstance(v, (int, float)) for v in rd.values()) else False
+    lab = sorted(x for x in bf.leaves if x)
+    for q in QUERIES:
+        if q == "q_calc_node_ages":
+            yield (q, None, {"check": bool(ultra)})
+        elif q == "q_mrca":
+            yield (q, None, {"labels": [lab[0], lab[-1]]})
+        else:
+            yield (q, None, {})
+
+
+def run_sequence(case, ctx, deciding=True, judge_from=0):
+    """All steps of case["seq"] on ONE tree object, judged after each step.  Returns (outcome, snapshot
+    node of the final state or None, is_rooted of the final state)."""
+    shape, lens, labels, short = expand(case)
+    eq = make_eq(case.get("dyadic", False))
+    sn = ref.mk(shape, lens=list(lens), labels=labels)
+    inv = Before(sn)
+    ns, bit = build.make_namespace(labels, "exact")
+    tree = build.build_tree((case["rooted"], sn), ns)
+    len0 = tree.length()
+    bf = inv
+    names = []
+    for step, (op, target, a) in enumerate(case["seq"]):
+        a = dict(a)
+        names.append(op)
+        nodes = live_nodes(tree)
+        rooted = tree._is_rooted
+        status, val = budget.run_limited(lambda: apply_op(tree, nodes, op, target, a), 20.0)
+        if status == "timeout":
+            status, val = "hang", "wall-clock backstop (20 s)"
+        chain = "->".join(names)
+
+        def report(sig, msg):
+            sig = "sequence|%s|%s" % (chain, sig.split("|", 1)[1] if "|" in sig else sig)
+            if deciding:
+                ctx.violation(sig, msg if len(msg) <= 1500 else msg[:1500] + " ...", case)
+            return sig
+        pre = "step %d of %s on %s%s: %s target=%r args=%r: " % (
+            step + 1, [x[0] for x in case["seq"]], {True: "[&R]", False: "[&U]", None: ""}[case["rooted"]], fmt(sn), op, target, a)
+        if step >= judge_from:
+            out = judge(ctx, report, pre, op, target, a, status, val, tree, nodes, bf, inv, rooted, eq, fmt, len0, labels, False)
+            if out != "ok":
+                return out, None, None
+        elif status != "ok":
+            return "prefix-failed", None, None
+        try:
+            after_rooted, after = ref.snapshot(tree)
+        except RuntimeError:
+            return "malformed", None, None
+        if step + 1 < len(case["seq"]):
+            bf = Before(after)
+    return "ok", after, tree._is_rooted
+
+
+def seq_trees(n, si, tier):
+    shape = U.shapes(n)[si]
+    k = n_nodes(shape)
+    yield ("inc", pat_inc(k), True)
+    yield ("inc", pat_inc(k), False)
+    yield ("ultrametric", pat_ultrametric(shape), True)
+    if tier != "quick":
+        yield ("ultrametric", pat_ultrametric(shape), False)
+    yield ("unit", pat_unit(k), None)
+
+
+def run_seq_chunk(chunk, ctx):
+    n, si, tier = chunk["n"], chunk["si"], chunk["tier"]
+    shape = U.shapes(n)[si]
+    triples = chunk.get("triples")          # None | "all" | "query-op-query" | "memo"
+    eq = make_eq(True)
+    for pname, lens, rooted in seq_trees(n, si, tier):
+        if triples == "memo" and tier == "quick" and rooted is None:
+            continue
+        base = {"shape": shape, "lens": list(lens), "rooted": rooted, "dyadic": True}
+        inv = Before(ref.mk(shape, lens=list(lens)))
+        ctx.count("sequence_trees")
+
+        def extend(prefix, bf, depth, maxdepth):
+            for (op, target, a) in seq_menu(bf, eq):
+                # C = operations that compute (and might remember) something: the queries and the midpoint search
+                inC = op.startswith("q_") or op == "reroot_at_midpoint"
+                if triples == "query-op-query" and (inC != (depth != 1)):
+                    continue
+                if triples == "memo":
+                    # [x in C; a re-rooting y; x again or mrca]: what x remembered meets a tree that has moved on
+                    if depth == 0 and not inC:
+                        continue
+                    if depth == 1 and (op not in REROOTERS or a.get("ub")):
+                        continue
+                    if depth == 2 and not (op == "q_mrca" or (op == prefix[0][0] and a == prefix[0][2])):
+                        continue
+                seq = prefix + [[op, target, a]]
+                case = dict(base, seq=seq)
+                if triples in ("query-op-query", "memo") and len(seq) < 3:       # prefixes are judged by the pairs chunk
+                    out, after, _ = run_sequence(case, ctx, False, judge_from=len(seq))
+                    if out == "ok":
+                        extend(seq, Before(after), depth + 1, maxdepth)
+                    continue
+                ctx.case((shape, tuple(lens), rooted, tuple((o, t, tuple(sorted((k2, tuple(v) if isinstance(v, list) else v)
+                                                                              for k2, v in x.items()))) for o, t, x in seq)),
+                         nontrivial=inv.nleaves >= 3)
+                ctx.count("sequence_steps_judged")
+                ctx.count("sequences_of_length_%d" % len(seq))
+                if len(seq) > 1 and seq[-1][0] == seq[-2][0]:
+                    ctx.count("sequences_ending_in_the_same_operation_twice")
+                out, after, _ = run_sequence(case, ctx, True, judge_from=len(seq) - 1)
+                if out == "ok" and depth + 1 < maxdepth:
+                    extend(seq, Before(after), depth + 1, maxdepth)
+                if len(seq) == 2 and pname == "inc" and rooted is False and n == 4 and si == 3 and op == "reroot_at_midpoint" and seq[0][0] in ("reroot_at_midpoint", "q_phylogenetic_distance_matrix"):
+                    ctx.sample({"tree": fmt(inv.sn), "rooted": rooted, "sequence": seq, "verdict": out}, 2)
+        extend([], inv, 0, 3 if triples else 2)
+    return None
 
 
 # ---------------------------------------------------------------------------
@@ -735,6 +1037,133 @@ def encoding_splits(tree, labels):
         if side and other:
             out.add(frozenset([side, other]))
     return out
+
+
+def judge(ctx, report, pre, op, target, a, status, val, tree, nodes, bf, inv, rooted, eq, show, len0, labels, partly):
+    """Evaluate every oracle for ONE executed call.  `bf`: reference facts of the state just before the call
+    (placement claims, rooting flag `rooted`); `inv`: reference facts of the ORIGINAL tree (the four invariants,
+    which are preserved under composition).  Returns an outcome tag ("ok" or the signature reported)."""
+    if status == "hang":
+        return report("%s|hang" % op, pre + "step budget exceeded at %s" % (val,))
+    if status == "exc" and partly and op == "reroot_at_midpoint" and isinstance(val, TypeError):
+        # the midpoint search met an edge without a length: midpoint rooting needs lengths on the path
+        # it walks (documented domain), so this outcome is counted and never decides
+        ctx.maximum("info_midpoint_TypeError_on_missing_length_seen", 1)   # (how often depends on the library's id-hash tie-break: flag, not count)
+        return "out-of-domain"
+    if status == "exc":
+        return report("%s|exception|%s" % (op, type(val).__name__), pre + "raised %r" % (val,))
+    probs = ref.wellformed(tree)
+    if probs:
+        return report("%s|malformed-tree" % op, pre + "; ".join(sorted(set(probs))))
+    try:
+        after_rooted, after = ref.snapshot(tree)
+    except RuntimeError as e:
+        return report("%s|malformed-tree" % op, pre + str(e))
+    outcome = "ok"
+    # -- the four invariants (first failing facet is reported) ---------------------
+    feature = ""
+    if op == "reroot_at_midpoint":
+        feature = "|midpoint-on-node" if bf.midpoint_on_node(eq) else "|midpoint-in-edge"
+    inv_ok = True
+    leaves_after = sorted(x if x is not None else "" for x in ref.leaves(after))
+    if leaves_after != inv.leaves:
+        inv_ok = False
+        outcome = report("%s%s|leaf-set-changed" % (op, feature), pre + ("leaves %s -> %s; result %s" % (inv.leaves, leaves_after, show(after)) if len(inv.leaves) <= 12 else
+                                "leaf set changed: lost %s, gained %s" % (sorted(set(inv.leaves) - set(leaves_after)),
+                                                                          sorted(set(leaves_after) - set(inv.leaves)))))
+    elif ref.unrooted_splits(after) != inv.splits:
+        inv_ok = False
+        outcome = report("%s%s|unrooted-splits-changed" % (op, feature), pre + "result %s" % show(after))
+    else:
+        pa = ref.path_table(after)
+        bad = [(sorted(p), inv.paths[p][0], pa[p][0]) for p in inv.paths if not eq(inv.paths[p][0], pa[p][0])]
+        if bad:
+            inv_ok = False
+            outcome = report("%s%s|path-length-changed" % (op, feature),
+                             pre + "path %s: %r -> %r; result %s" % (bad[0][0], bad[0][1], bad[0][2], show(after)))
+        else:
+            ta = ref.total_length(after)
+            if not eq(ta, inv.total):
+                inv_ok = False
+                outcome = report("%s%s|total-length-changed" % (op, feature), pre + "total %r -> %r; result %s" % (inv.total, ta, show(after)))
+            else:
+                # the same facts through the public observers named by the property
+                try:
+                    l1 = tree.length()
+                except Exception as e:  # pragma: no cover
+                    l1 = e
+                if not (isinstance(l1, (int, float)) and eq(l1, len0)):
+                    inv_ok = False
+                    outcome = report("%s%s|Tree.length-changed" % (op, feature), pre + "Tree.length() %r -> %r" % (len0, l1))
+    # -- rooting flag --------------------------------------------------------------------
+    if op in SOFT:
+        if after_rooted is not rooted:
+            kind = "undefined-becomes-unrooted" if (rooted is None and after_rooted is False) else "changed"
+            outcome = report("%s|rooting-flag|%s" % (op, kind), pre + "soft operation changed is_rooted %r -> %r" % (rooted, after_rooted))
+    elif op in HARD:
+        if after_rooted is not True:
+            outcome = report("%s|rooting-flag|not-set-to-rooted" % op, pre + "hard operation left is_rooted = %r" % (after_rooted,))
+    elif after_rooted is not rooted:
+        ctx.count("info_flag_changed_by_op_without_documented_softness")
+    if not inv_ok:
+        return outcome
+    # -- placement claims ------------------------------------------------------------------
+    if op == "reroot_at_midpoint":
+        D, pairs = bf.max_pairs(eq)
+        rd = ref.root_distances(after)
+        if not any(eq(rd[x], D / 2.0) and eq(rd[y], D / 2.0) for (x, y) in pairs) and partly:
+            # where the midpoint lies is not defined by the statement when lengths are missing (the library's
+            # own Node.distance_from_root then answers with the parent's edge length): counted only
+            ctx.maximum("info_midpoint_placement_differs_on_partly_None_lengths_seen", 1)   # (how often depends on the library's id-hash tie-break: flag, not count)
+        elif not any(eq(rd[x], D / 2.0) and eq(rd[y], D / 2.0) for (x, y) in pairs):
+            outcome = report("reroot_at_midpoint%s|root-not-at-midpoint" % feature,
+                             pre + "no most-distant pair (D=%r, pairs %s) is equidistant from the new root: root distances %s; result %s" % (
+                                 D, pairs, sorted(rd.items()), show(after)))
+    elif op == "reroot_at_edge":
+        head = bf.clades[target]
+        kids = [ref.clade(c) for c in after[3]]
+        if head not in kids:
+            outcome = report("reroot_at_edge|root-not-on-edge", pre + "no child of the new root carries the clade %s below the edge; result %s" % (sorted(head), show(after)))
+        else:
+            nd = bf.node_leaf_dist()
+            rd = ref.root_distances(after)
+            l1, l2 = a["l1"] or 0, a["l2"] or 0
+            tail = bf.parent[target]
+            bad = None
+            for x in inv.leaves:
+                want = (l2 + nd[target][x]) if x in head else (l1 + nd[tail][x])
+                if not eq(rd.get(x), want):
+                    bad = (x, want, rd.get(x))
+                    break
+            if bad:
+                outcome = report("reroot_at_edge|root-not-at-requested-distances",
+                                 pre + "leaf %s should be at %r from the new root, is at %r; result %s" % (bad + (show(after),)))
+    elif op == "to_outgroup_position":
+        first = tree._seed_node._child_nodes[0] if tree._seed_node._child_nodes else None
+        # an outgroup that is itself an out-degree-one node is removed by the documented
+        # suppress_unifurcations=True: then only its clade can be demanded as first child
+        same_node = first is nodes[target] or (a.get("su", True) and len(bf.nodes[target][3]) == 1)
+        if not same_node or ref.clade(after[3][0]) != bf.clades[target]:
+            outcome = report("to_outgroup_position|outgroup-not-first-child", pre + "result %s" % show(after))
+    if op in ("reseed_at", "reroot_at_node") and tree._seed_node is not nodes[target]:
+        ctx.count("info_seed_is_not_the_requested_node")
+    # -- the split set as published by the library when asked to keep it current ---------
+    if a.get("ub"):
+        es = encoding_splits(tree, labels)
+        if es != inv.splits:
+            outcome = report("%s|update_bipartitions|encoding-splits-differ" % op,
+                             pre + "bipartition_encoding after the call describes splits %s, tree has %s" % (
+                                 None if es is None else sorted(sorted(sorted(s) for s in sp) for sp in es),
+                                 sorted(sorted(sorted(s) for s in sp) for sp in inv.splits)))
+    if a.get("ub") or op == "q_encode_bipartitions":
+        bad = stale_edge_bitmask(tree, labels)
+        if bad:
+            outcome = report("%s|update_bipartitions|edge-bitmask-not-current" % op, pre + bad + "; tree now " + show(after))
+    if op.startswith("q_"):
+        bad = query_value_problem(op, a, val, tree, nodes, after, inv, eq, labels)
+        if bad:
+            outcome = report("%s|query-value-differs" % op, pre + bad)
+    return outcome
 
 
 def run_case(case, ctx, bf=None, deciding=True):
@@ -781,119 +1210,8 @@ def run_case(case, ctx, bf=None, deciding=True):
     else:
         show = fmt
     pre = "%s on %s%s target=%r args=%r: " % (op, {True: "[&R]", False: "[&U]", None: ""}[rooted], short or show(sn), target, a)
-    if status == "hang":
-        return report("%s|hang" % op, pre + "step budget exceeded at %s" % (val,))
-    if status == "exc" and partly and op == "reroot_at_midpoint" and isinstance(val, TypeError):
-        # the midpoint search met an edge without a length: midpoint rooting needs lengths on the path
-        # it walks (documented domain), so this outcome is counted and never decides
-        ctx.count("info_midpoint_TypeError_on_missing_length")
-        return "out-of-domain"
-    if status == "exc":
-        return report("%s|exception|%s" % (op, type(val).__name__), pre + "raised %r" % (val,))
-    probs = ref.wellformed(tree)
-    if probs:
-        return report("%s|malformed-tree" % op, pre + "; ".join(sorted(set(probs))))
-    try:
-        after_rooted, after = ref.snapshot(tree)
-    except RuntimeError as e:
-        return report("%s|malformed-tree" % op, pre + str(e))
-    outcome = "ok"
-    # -- the four invariants (first failing facet is reported) ---------------------
-    feature = ""
-    if op == "reroot_at_midpoint":
-        feature = "|midpoint-on-node" if bf.midpoint_on_node(eq) else "|midpoint-in-edge"
-    inv_ok = True
-    leaves_after = sorted(x if x is not None else "" for x in ref.leaves(after))
-    if leaves_after != bf.leaves:
-        inv_ok = False
-        outcome = report("%s%s|leaf-set-changed" % (op, feature), pre + ("leaves %s -> %s; result %s" % (bf.leaves, leaves_after, show(after)) if short is None else
-                                "leaf set changed: lost %s, gained %s" % (sorted(set(bf.leaves) - set(leaves_after)),
-                                                                          sorted(set(leaves_after) - set(bf.leaves)))))
-    elif ref.unrooted_splits(after) != bf.splits:
-        inv_ok = False
-        outcome = report("%s%s|unrooted-splits-changed" % (op, feature), pre + "result %s" % show(after))
-    else:
-        pa = ref.path_table(after)
-        bad = [(sorted(p), bf.paths[p][0], pa[p][0]) for p in bf.paths if not eq(bf.paths[p][0], pa[p][0])]
-        if bad:
-            inv_ok = False
-            outcome = report("%s%s|path-length-changed" % (op, feature),
-                             pre + "path %s: %r -> %r; result %s" % (bad[0][0], bad[0][1], bad[0][2], show(after)))
-        else:
-            ta = ref.total_length(after)
-            if not eq(ta, bf.total):
-                inv_ok = False
-                outcome = report("%s%s|total-length-changed" % (op, feature), pre + "total %r -> %r; result %s" % (bf.total, ta, show(after)))
-            else:
-                # the same facts through the public observers named by the property
-                try:
-                    l1 = tree.length()
-                except Exception as e:  # pragma: no cover
-                    l1 = e
-                if not (isinstance(l1, (int, float)) and eq(l1, holder["len0"])):
-                    inv_ok = False
-                    outcome = report("%s%s|Tree.length-changed" % (op, feature), pre + "Tree.length() %r -> %r" % (holder["len0"], l1))
-    # -- rooting flag --------------------------------------------------------------------
-    if op in SOFT:
-        if after_rooted is not rooted:
-            kind = "undefined-becomes-unrooted" if (rooted is None and after_rooted is False) else "changed"
-            outcome = report("%s|rooting-flag|%s" % (op, kind), pre + "soft operation changed is_rooted %r -> %r" % (rooted, after_rooted))
-    elif op in HARD:
-        if after_rooted is not True:
-            outcome = report("%s|rooting-flag|not-set-to-rooted" % op, pre + "hard operation left is_rooted = %r" % (after_rooted,))
-    elif after_rooted is not rooted:
-        ctx.count("info_flag_changed_by_op_without_documented_softness")
-    if not inv_ok:
-        return outcome
-    # -- placement claims ------------------------------------------------------------------
-    if op == "reroot_at_midpoint":
-        D, pairs = bf.max_pairs(eq)
-        rd = ref.root_distances(after)
-        if not any(eq(rd[x], D / 2.0) and eq(rd[y], D / 2.0) for (x, y) in pairs) and partly:
-            # where the midpoint lies is not defined by the statement when lengths are missing (the library's
-            # own Node.distance_from_root then answers with the parent's edge length): counted only
-            ctx.count("info_midpoint_placement_differs_on_partly_None_lengths")
-        elif not any(eq(rd[x], D / 2.0) and eq(rd[y], D / 2.0) for (x, y) in pairs):
-            outcome = report("reroot_at_midpoint%s|root-not-at-midpoint" % feature,
-                             pre + "no most-distant pair (D=%r, pairs %s) is equidistant from the new root: root distances %s; result %s" % (
-                                 D, pairs, sorted(rd.items()), show(after)))
-    elif op == "reroot_at_edge":
-        head = bf.clades[target]
-        kids = [ref.clade(c) for c in after[3]]
-        if head not in kids:
-            outcome = report("reroot_at_edge|root-not-on-edge", pre + "no child of the new root carries the clade %s below the edge; result %s" % (sorted(head), show(after)))
-        else:
-            nd = bf.node_leaf_dist()
-            rd = ref.root_distances(after)
-            l1, l2 = a["l1"] or 0, a["l2"] or 0
-            tail = bf.parent[target]
-            bad = None
-            for x in bf.leaves:
-                want = (l2 + nd[target][x]) if x in head else (l1 + nd[tail][x])
-                if not eq(rd.get(x), want):
-                    bad = (x, want, rd.get(x))
-                    break
-            if bad:
-                outcome = report("reroot_at_edge|root-not-at-requested-distances",
-                                 pre + "leaf %s should be at %r from the new root, is at %r; result %s" % (bad + (show(after),)))
-    elif op == "to_outgroup_position":
-        first = tree._seed_node._child_nodes[0] if tree._seed_node._child_nodes else None
-        # an outgroup that is itself an out-degree-one node is removed by the documented
-        # suppress_unifurcations=True: then only its clade can be demanded as first child
-        same_node = first is nodes[target] or (a.get("su", True) and len(bf.nodes[target][3]) == 1)
-        if not same_node or ref.clade(after[3][0]) != bf.clades[target]:
-            outcome = report("to_outgroup_position|outgroup-not-first-child", pre + "result %s" % show(after))
-    if op in ("reseed_at", "reroot_at_node") and tree._seed_node is not nodes[target]:
-        ctx.count("info_seed_is_not_the_requested_node")
-    # -- the split set as published by the library when asked to keep it current ---------
-    if a.get("ub"):
-        es = encoding_splits(tree, labels)
-        if es != bf.splits:
-            outcome = report("%s|update_bipartitions|encoding-splits-differ" % op,
-                             pre + "bipartition_encoding after the call describes splits %s, tree has %s" % (
-                                 None if es is None else sorted(sorted(sorted(s) for s in sp) for sp in es),
-                                 sorted(sorted(sorted(s) for s in sp) for sp in bf.splits)))
-    return outcome
+    return judge(ctx, report, pre, op, target, a, status, val, tree, nodes, bf, bf, rooted, eq, show,
+                 holder.get("len0"), labels, partly)
 
 
 # ---------------------------------------------------------------------------
@@ -901,6 +1219,8 @@ def run_case(case, ctx, bf=None, deciding=True):
 def run_chunk(chunk, ctx):
     if chunk.get("kind") == "big":
         return run_big(chunk, ctx)
+    if chunk.get("kind") == "seq":
+        return run_seq_chunk(chunk, ctx)
     n, tier = chunk["n"], chunk["tier"]
     b = bounds(tier)
     with_info = b["informational_leaf_targets"]
@@ -963,11 +1283,16 @@ def replay(case, ctx):
     # the library's choice among tied most-distant pairs follows id()-based hashing, so a
     # tie-dependent midpoint failure may need a different memory layout to show again:
     # re-run the same descriptor a bounded number of times (existential over that choice)
-    tries = 12 if case.get("op") == "reroot_at_midpoint" else 1
+    if "seq" in case:
+        case["seq"] = [[o, t, dict(x)] for o, t, x in case["seq"]]
+    tries = 12 if (case.get("op") == "reroot_at_midpoint" or any(x[0] == "reroot_at_midpoint" for x in case.get("seq", []))) else 1
     junk = []
     for i in range(tries):
         c2 = type(ctx)()
-        run_case(case, c2, None, True)
+        if "seq" in case:
+            run_sequence(case, c2, True)
+        else:
+            run_case(case, c2, None, True)
         if c2.viol or i == tries - 1:
             for sig, ent in c2.viol.items():
                 for v in ent["first"]:
